@@ -117,15 +117,29 @@ func (w *World) ApplySC(a *SCAction) bool {
 			return false
 		}
 		w.control(shard, addr, spec.FnUnSetRole, append([][]byte{t.ID}, roles...), "")
-	case "freeze":
-		t.Frozen[string(addr)] = true
-		w.control(shard, addr, spec.FnFreeze, [][]byte{t.ID}, "")
-	case "unfreeze":
-		delete(t.Frozen, string(addr))
-		w.control(shard, addr, spec.FnUnFreeze, [][]byte{t.ID}, "")
-	case "wipe":
-		delete(t.Frozen, string(addr))
-		w.control(shard, addr, spec.FnWipe, [][]byte{t.ID}, "")
+	case "freeze", "unfreeze", "wipe":
+		// with a nonce: the system contract's single-NFT forms (freezeSingleNFT, unFreezeSingleNFT,
+		// wipeSingleNFT) address one NFT by the composed identifier token||nonce; the contract cannot
+		// know whether the account still holds that nonce
+		ident := append([]byte{}, t.ID...)
+		fk := string(addr)
+		if a.Nonce > 0 && t.Kind != KindFungible {
+			ident = append(ident, spec.NonceBytes(a.Nonce)...)
+			fk += "\x00" + string(spec.NonceBytes(a.Nonce))
+			w.Stats.Probes["single-nft-"+a.Op]++
+		}
+		fn := spec.FnFreeze
+		switch a.Op {
+		case "freeze":
+			t.Frozen[fk] = true
+		case "unfreeze":
+			delete(t.Frozen, fk)
+			fn = spec.FnUnFreeze
+		default:
+			delete(t.Frozen, fk)
+			fn = spec.FnWipe
+		}
+		w.control(shard, addr, fn, [][]byte{ident}, "")
 	case "pause", "unpause":
 		fn := spec.FnPause
 		if a.Op == "unpause" {
